@@ -8,7 +8,7 @@ from hypothesis import strategies as st
 from .. import core, rsmodel, session, strategies as S
 from ..core import Part, Violation, guard
 
-RULE = ("Hypothesis-generated synthetic rulesets without Markov (tie-heavy probability pools emphasised) run through the real "
+RULE = ("(Part deep_restore: two lists of 600-1500 distinct probabilities, the real PcfgQueue interrupted where the index sum of the deepest pre-terminal above the saved position reaches 900 / 1000 / 1100 / max, restored under a fresh interpreter's recursion limit and drained: multiset and order as below.) Hypothesis-generated synthetic rulesets without Markov (tie-heavy probability pools emphasised) run through the real "
         "pcfg_guesser.main() in-process: an explicit 'q' is delivered by the harness-owned keyboard so that it is noticed right "
         "after the k-th pop, the real .sav is written, and a second real main() --load resumes. EVERY cut k=1..|U| of each "
         "ruleset is tried (exhaustive per ruleset); a second part generates histories of up to 5 quit/resume cycles; a third part runs quit histories on rulesets WITH Markov levels through the shared history oracle; a fourth checks the UUID refusal. "
@@ -234,6 +234,96 @@ def run_uuid(rec, seed, shard, nshards, tier):
     core.hyp_run(rec, prop_uuid, uuid_cases(), n, seed)
 
 
+# ---------------------------------------------------------------- deep sessions: long transition lists, late interruption
+def prop_deep(case, rec):
+    """One base structure over two long lists of distinct probabilities; the queue (real PcfgQueue, real update_save_config /
+    restore) is interrupted after `cut` pre-terminals, far enough for index sums above 1000, restored and drained."""
+    import configparser
+    from .. import guesser
+    na, nb, ra, rb = case['na'], case['nb'], case['ra'], case['rb']
+    wa = len(str(na))
+    va = [[0.5 * ra ** i, [str(i).zfill(wa)]] for i in range(na)]
+    vb = [[0.5 * rb ** j, ['!' + chr(0x4e00 + j)]] for j in range(nb)]
+    m = {'encoding': 'utf-8', 'uuid': 'c08-deep', 'vars': {'D%d' % wa: va, 'O2': vb}, 'base': [['D%dO2' % wa, 1.0]], 'm_levels': []}
+    rd = os.path.join(_root(), 'Rules', 'Deep')
+    rsmodel.write_ruleset(rd, m)
+    g = guard(case, guesser.load, rd)
+    q = guesser.new_queue(g)
+    full = []
+    while True:
+        it = guard(case, q.next)
+        if it is None:
+            break
+        full.append((tuple(it['pt']), it['prob']))
+    if len(full) != na * nb:
+        raise Violation('uninterrupted_incomplete', f'uninterrupted queue emitted {len(full)} of {na * nb} pre-terminals', case)
+    cuts = list(case['cuts'])
+    if not case.get('exact_cuts'):
+        # interruption points right after the first pre-terminal whose index sum reaches 900 / 1000 / 1100 / the maximum
+        for th in (900, 1000, 1100, 1300, na + nb - 2):
+            k = next((i for i, (pt, p) in enumerate(full) if sum(ix for _, ix in pt) >= th), None)
+            if k is not None:
+                cuts.append(k + 1)
+    for cut in sorted(set(cuts)):
+        cut = max(1, min(cut, len(full) - 1))
+        q = guesser.new_queue(g)
+        for _ in range(cut + 1):            # the (cut+1)-th item is popped when the quit is noticed: its probability is saved
+            it = q.next()
+        sc = configparser.ConfigParser()
+        sc.add_section('guessing_info')
+        q.update_save_config(sc)
+        sp = sc.getfloat('guessing_info', 'max_probability')
+        # a fresh interpreter's recursion limit, as pcfg_guesser.py --load would start with (Hypothesis raises it for its own use)
+        import sys
+        old_limit = sys.getrecursionlimit()
+        sys.setrecursionlimit(1000)
+        try:
+            g2 = guard(case, guesser.load, rd)
+            q2 = guard(case, guesser.new_queue, g2, sc)
+            got = []
+            while True:
+                it = guard(case, q2.next)
+                if it is None:
+                    break
+                got.append((tuple(it['pt']), it['prob']))
+        finally:
+            sys.setrecursionlimit(max(old_limit, 1000))
+        depth = max(sum(i for _, i in pt) for pt, p in full[:cut + 1])
+        rec.case({'lists': [na, nb], 'cut': cut, 'deepest_index_sum_above_saved_position': depth, 'resumed': len(got)}, depth >= 900,
+                 ['deep_index_sum_%d' % (depth // 500 * 500)], key=[na, nb, ra, rb, cut])
+        want = Counter(pt for pt, p in full if p <= sp)
+        have = Counter(pt for pt, p in got)
+        sub = dict(case, cuts=[cut], exact_cuts=True)
+        if want - have:
+            raise Violation('lost', f'cut {cut} (saved position {sp!r}, deepest index sum {depth}): the restored queue never emits '
+                            f'{sum((want - have).values())} of {sum(want.values())} pre-terminals, e.g. {list((want - have))[:3]}', sub)
+        if have - want:
+            raise Violation('extra', f'cut {cut}: the restored queue emits pre-terminals above the saved position or twice: {list((have - want).items())[:3]}', sub)
+        for a, b in zip(got, got[1:]):
+            if b[1] > a[1]:
+                raise Violation('order_after_resume', f'cut {cut}: {b} after {a}', sub)
+
+
+@st.composite
+def deep_cases(draw, tier):
+    if tier == 'quick':
+        na, nb = draw(st.sampled_from([(1000, 110), (1000, 13)]))
+    else:
+        na, nb = draw(st.sampled_from([(1000, 130), (600, 400), (1500, 60), (1000, 13)]))
+    ra = draw(st.sampled_from([0.999, 0.9995, 0.99]))
+    rb = draw(st.sampled_from([0.5, 0.7, 0.25]))
+    total = na * nb
+    cuts = sorted({draw(st.integers(1, total - 1)) for _ in range(2)} | {total - draw(st.integers(1, na)), total * 3 // 4})
+    if tier == 'quick':
+        cuts = cuts[-1:]
+    return {'na': na, 'nb': nb, 'ra': ra, 'rb': rb, 'cuts': cuts}
+
+
+def run_deep(rec, seed, shard, nshards, tier):
+    n = {'quick': 2, 'thorough': 3}[tier]
+    core.hyp_run(rec, prop_deep, deep_cases(tier), n, seed, shrink=False)
+
+
 # committed regression (finding F8): 2x2 grid, quit noticed at the 3rd pop
 F8_CASE = {'model': {'encoding': 'utf-8', 'uuid': 'f8', 'vars': {'D1': [[0.6, ['1']], [0.4, ['2']]], 'O1': [[0.7, ['!']], [0.3, ['?']]]},
                      'base': [['D1O1', 1.0]], 'm_levels': []},
@@ -264,4 +354,5 @@ PARTS = [
     Part('every_cut', run_cuts, prop_cuts, {'quick': 8, 'thorough': 16}),
     Part('multi_cycle', run_cycles, prop_cycles, {'quick': 6, 'thorough': 16}),
     Part('uuid', run_uuid, prop_uuid, {'quick': 1, 'thorough': 4}),
+    Part('deep_restore', run_deep, prop_deep, {'quick': 2, 'thorough': 8}),
 ]
